@@ -342,7 +342,10 @@ impl Workload for Navigation {
         }
     }
     fn run(&self, seed: u64, idx: u64, st: &mut Stats) -> Vec<Violation> {
-        let Some(c) = gen_wt_case(seed, "c17", idx, &cfg(), st) else { return vec![] };
+        let Some(mut c) = gen_wt_case(seed, "c17", idx, &cfg(), st) else { return vec![] };
+        if idx % 2 == 1 {
+            with_trivia(&mut c, seed, "c17", idx);
+        }
         let v = run_case(&c, self.stride, idx as usize, st);
         st.nontrivial(hash64(&c.sources.files));
         st.sample(|| json!({"sources": c.sources.to_json()}));
@@ -355,7 +358,10 @@ impl Workload for Navigation {
         // the binding table comes from the generator: regenerate from (seed, index), full sweep
         let seed = case["seed"].as_u64().unwrap_or(1);
         let idx = case["index"].as_u64().unwrap_or(0);
-        let Some(c) = gen_wt_case(seed, "c17", idx, &cfg(), st) else { return vec![] };
+        let Some(mut c) = gen_wt_case(seed, "c17", idx, &cfg(), st) else { return vec![] };
+        if idx % 2 == 1 {
+            with_trivia(&mut c, seed, "c17", idx);
+        }
         run_case(&c, 1, 0, st)
     }
     fn chunk(&self) -> u64 {
